@@ -354,6 +354,7 @@ class _Prov:
         self.idx, self.cls, self.fn, self.depth = idx, cls, fn, depth
         self.params = param_names(fn.node)
         self.public = fn.name == "__init__" or not fn.name.startswith("_")
+        self.static = any(d.split(".")[-1] == "staticmethod" for d in fn.decorator_names())  # no `self` in the parameter list
 
     def of(self, e: ast.AST, seen=None) -> Set[str]:
         seen = seen or set()
@@ -462,8 +463,9 @@ class _Prov:
                     if is_self_attr(call.func, self.fn.name):
                         found = True
                         arg = None
-                        if i - 1 < len(call.args):
-                            arg = call.args[i - 1]
+                        j = i if self.static else i - 1
+                        if 0 <= j < len(call.args):
+                            arg = call.args[j]
                         for k in call.keywords:
                             if k.arg == name:
                                 arg = k.value
@@ -498,7 +500,7 @@ def _provenance(ctx, res) -> None:
                 sanitised = _site_ok(idx, cls, f, cfg, node, arg, pv)
                 if not sanitised and cls is not None and f.name.startswith("_") and f.name != "__init__" and isinstance(arg, ast.Name) \
                         and arg.id in param_names(f.node):
-                    i = param_names(f.node).index(arg.id) - 1
+                    i = param_names(f.node).index(arg.id) - (0 if any(d.split(".")[-1] == "staticmethod" for d in f.decorator_names()) else 1)
                     sites2 = []
                     for q in idx.mro(cls.qualname) + idx.subclasses(cls.qualname):
                         c2 = idx.classes.get(q)
@@ -593,7 +595,7 @@ def _sanitised(idx, cls, f, cfg, node, arg, pv) -> bool:
         if isinstance(t, ast.Call) and is_self_attr(t.func) and cls is not None:
             h = idx.find_method(cls.qualname, t.func.attr)
             if h is not None and any(norm(a) == norm(arg) for a in t.args):
-                hp = param_names(h.node)[1:]
+                hp = h.call_params()  # (static methods have no `self` to drop)
                 i = next(i for i, a in enumerate(t.args) if norm(a) == norm(arg))
                 if i < len(hp):
                     subj = hp[i]
